@@ -38,7 +38,7 @@ Section Eval.
     fr_ext : ext s s';
     fr_le : mn_le m' m;
     fr_new : forall d nd, nodeat s' d nd -> length (sgraph s) <= d -> mn_le m' (gn_links nd);
-    fr_path : forall l, m' = Some l -> m = Some l \/
+    fr_path : forall l, m' = Some l -> m = Some l \/ length (sgraph s) <= l \/
                 (l < length (sgraph s) /\ exists nd, nodeat s l nd /\ path G t (gn_goal nd));
   }.
 
@@ -71,17 +71,12 @@ Section Eval.
       + eapply mn_le_trans; [apply (fr_le _ _ _ _ _ B)|].
         eapply (fr_new _ _ _ _ _ A); eauto.
         eapply nodeat_back; eauto. apply (fr_ext _ _ _ _ _ B).
-    - intros l Hl. destruct (fr_path _ _ _ _ _ B l Hl) as [H|[H1 [nd [H2 H3]]]].
+    - intros l Hl. destruct (fr_path _ _ _ _ _ B l Hl) as [H|[H|[H1 [nd [H2 H3]]]]].
       + apply (fr_path _ _ _ _ _ A l H).
+      + right; left. pose proof (ext_graph_len _ _ (fr_ext _ _ _ _ _ A)). lia.
       + destruct (le_lt_dec (length (sgraph s1)) l) as [Hge|Hlt].
-        * (* a node created between s1 and s2: its links bound m2, so m2 <= l ... use fr_new *)
-          pose proof (fr_new _ _ _ _ _ A l nd H2 Hge) as Hb.
-          (* nd is pending in s2 with links < l, and m2 <= links: then m3 = Some l is not below m2 *)
-          pose proof (ext_new _ _ (fr_ext _ _ _ _ _ A) l nd H2 Hge) as Hp.
-          destruct (wf_pend _ _ (fr_wf _ _ _ _ _ A) l nd H2 Hp) as [l0 [Hl0 Hlt0]].
-          pose proof (fr_le _ _ _ _ _ B) as Hle. rewrite Hl in Hle. rewrite Hl0 in Hb.
-          destruct m2 as [x|]; simpl in *; try tauto. lia.
-        * right. split; auto. exists nd. split; auto.
+        * right; left; auto.
+        * right; right. split; auto. exists nd. split; auto.
           eapply nodeat_back; eauto. apply (fr_ext _ _ _ _ _ A).
   Qed.
 
@@ -103,8 +98,8 @@ Section Eval.
     Lemma frame_edge s s' t g m m' : edge G t g -> frame s s' g m m' -> frame s s' t m m'.
     Proof.
       intros He F. destruct F. constructor; auto.
-      intros l Hl. destruct (fr_path0 l Hl) as [H|[H1 [nd [H2 H3]]]]; auto.
-      right. split; auto. exists nd. split; auto. eapply path_step; eauto.
+      intros l Hl. destruct (fr_path0 l Hl) as [H|[H|[H1 [nd [H2 H3]]]]]; auto.
+      right; right. split; auto. exists nd. split; auto. eapply path_step; eauto.
     Qed.
 
     (** one clause *)
@@ -265,12 +260,10 @@ Section Eval.
               + apply Hcf; auto.
             - intros Ht. exists c. split; [apply in_or_app; right; left; auto|]. apply Hct; auto. }
           pose proof (IH (done ++ [c]) (Some Amb) mc s1 (fr_wf _ _ _ _ _ F1) (fr_si _ _ _ _ _ F1) T1 Hr Hacc') as HI.
-          assert (Hcomb : combine cur Amb = Some Amb).
-          { destruct cur as [[| |]|]; simpl in Hacc; try tauto; reflexivity. }
-          rewrite Hcomb.
-          destruct (eval_clauses sg r (Some Amb) mc s1) as [[v m'] s'| |]; simpl in *; auto.
-          destruct HI as [F2 HI]. split; [eapply frame_trans; eauto|].
-          rewrite <- app_assoc in HI. simpl in HI. exact HI.
+          destruct cur as [[| |]|]; simpl in Hacc; try tauto; simpl;
+            (destruct (eval_clauses sg r (Some Amb) mc s1) as [[v m'] s'| |]; simpl in *; auto;
+             destruct HI as [F2 HI]; split; [eapply frame_trans; eauto|];
+             rewrite <- app_assoc in HI; simpl in HI; exact HI).
     Qed.
   End WithSg.
 End Eval.
